@@ -309,6 +309,7 @@ class Reader:
                 endl = self.t[self.i - 1].line
                 fall = bool(inner) and inner[0].k == "p" and inner[0].v == "?"
                 action = Action(inner, fall, l0, endl)
+                action.col, action.endcol = t.col, self.t[self.i - 1].col
                 break
             elems.append(self.parse_elem())
         return Seq(elems, action, line)
